@@ -147,6 +147,81 @@ CHECKS = {
              'must decode with the server decoder, a success must return exactly the payload data, a failure must raise '
              'an operation failure with exactly status/reason/message, a truncated stream must raise.',
         design='DESIGN.md section 3 C19'),
+
+    'C05': dict(
+        category='exploration',
+        technique='runtime monitoring: shadow record of exactly what was sent (the managed-object sub-tree and the '
+                  'attribute encodings of the Register request) compared with independently decoded Get / GetAttributes / '
+                  'GetAttributeList responses, across versions, engine restarts and the client library',
+        text='All seven object types with generated values (value lengths 1..1024, enum members, 0-4 names of both name '
+             'types, groups, application-specific information, mask subsets, Sensitive, key wrapping data with each field '
+             'alone and falsy values) plus Create / CreateKeyPair / DeriveKey objects; the object sub-tree returned by Get '
+             'must equal the one registered item for item; the attribute set must be supplied + implied + server-assigned; '
+             'read under every version, after engine restarts on the same file, and through ProxyKmipClient field by field.',
+        design='DESIGN.md section 3 C05'),
+    'C06': dict(
+        category='exploration',
+        technique='runtime monitoring: differential oracles - stdlib hmac/hashlib, hand-written CMAC (RFC 4493), HKDF '
+                  '(RFC 5869), SP 800-108 counter mode, RFC 3394 key wrap, PKCS#5 / X9.23 padding and block-mode chaining '
+                  'over single ECB blocks - against CryptographyEngine return values and server response payloads',
+        text='Product of algorithm x key size x mode x padding x IV supplied/generated x AAD x tag length x message '
+             'lengths for Encrypt/Decrypt (ciphertext equals the reference, Decrypt inverts Encrypt, GCM rejects modified '
+             'ciphertext/tag/AAD), every MAC algorithm, every derivation method x hash x salt x iterations x length, RFC 3394 '
+             'wrapping, RSA sign/verify over all supported algorithm selections with wrong-message/-signature/-key negatives, '
+             'length and freshness of generated material, and the same through server requests.',
+        design='DESIGN.md section 3 C06'),
+    'C07': dict(
+        category='exploration',
+        technique='runtime monitoring: history checker over acknowledged identifiers (set of everything ever issued on the '
+                  'database, across clean restarts, abandoned engines and killed child processes); never-issued-identifier '
+                  'twin for every probe on a destroyed identifier; per-object raw-row frame condition around Destroy',
+        text='Multi-client histories heavy on Create / CreateKeyPair / Register / DeriveKey and Destroy (incl. destroy the '
+             'newest then create) with three kinds of restart; every newly acknowledged identifier must be fresh; after each '
+             'acknowledged Destroy 12 probes x 3 identities x random versions must answer exactly as for a never-issued '
+             'identifier, Locate must not list it, and the rows of every other object must be unchanged.',
+        design='DESIGN.md section 3 C07'),
+    'C09': dict(
+        category='fault_enumeration',
+        technique='fault injection: forked child dies (os._exit) at the k-th SQL-statement/commit boundary or executed '
+                  'engine line, or by SIGKILL at a random instant; recovery observation compared with no-fault twins',
+        text='For 20 state-changing operations (first or second request of a two-request sequence) every SQL cursor-execute '
+             'boundary, DBAPI commit and session after-commit, and every (quick: every 3rd) executed line of engine.py inside '
+             'process_request is used as a death point; after each death the parent reopens the file with its journal in a '
+             'fresh engine: everything must be readable (Get/GetAttributes/GetAttributeList/Locate, child rows present), the '
+             'acknowledged requests applied, and the interrupted one wholly applied or wholly absent (equality with the twin '
+             'stores "k requests applied").',
+        design='DESIGN.md section 3 C09',
+        note='Category fault_enumeration: the enumerated fault space is process death at Python-visible boundaries; death '
+             'inside a syscall, torn writes and power loss are not producible here. '),
+    'C10': dict(
+        category='exploration',
+        technique='runtime monitoring: recorded concurrent histories (call/return stamps at the connection) checked for '
+                  'linearisability by Wing-Gong search with replay on a fresh engine; identity/version invariant asserted at '
+                  'hooks inside the engine; yield injection via sys.monitoring LINE events and a 10 us switch interval',
+        text='Hundreds of short histories of 2-4 real KmipSession threads with different users, group lists and KMIP versions '
+             'over shared objects; each must admit a sequential order consistent with per-client order and real-time '
+             'precedence that reproduces every response and the final store; at every policy decision, operation dispatch '
+             'and response build the engine must hold the identity and version of the request being served.',
+        design='DESIGN.md section 3 C10'),
+    'C18': dict(
+        category='exploration',
+        technique='runtime monitoring: exhaustive file-event sequences on a real directory through the real '
+                  'PolicyDirectoryMonitor.scan_policies against a per-file reference model of the policy store; independent '
+                  'document validator against read_policy_from_file',
+        text='All sequences of write(file, content class)/remove(file) + scan to depth 4 (quick) or 5 (thorough) over 8 '
+             'content classes (valid with overlapping names, empty, bad JSON, bad permission, reserved names, non-object), '
+             'random sequences to depth 25 over 12 classes with several events per scan, and ~500 JSON documents valid in each '
+             'documented shape or invalid at every position: store equals the model after every scan, built-ins untouched, '
+             'scan never raises, parser returns or raises ValueError.',
+        design='DESIGN.md section 3 C18'),
+    'C20': dict(
+        category='exploration',
+        technique='runtime monitoring: root logging handler scanning every record >= INFO (message, args, traceback) and every '
+                  'result message for windows of planted high-entropy canaries in raw / hex / base64 / escaped form',
+        text='Canaries as key material of all seven object types, secret data, credential passwords, plaintext, IVs, MAC and '
+             'derivation data, through real sessions (incl. mutated undecodable copies of the canary-carrying requests and '
+             'certificate failures), all refusal paths, the known internal-error paths and ProxyKmipClient calls.',
+        design='DESIGN.md section 3 C20'),
 }
 
 NOT_YET = {}
